@@ -155,6 +155,17 @@ class PlainFlops(FlopCounterBase):
     pass
 
 
+class CSEArgRenamer(mapmod.CSECachingMapperMixin, IdentityMapper):
+    """a user of the wrapper-caching mix-in whose result depends on an extra positional
+    argument (no CachedMapper in front): one table entry per (wrapper, arguments)"""
+
+    def map_variable(self, expr, *a):
+        return p.Variable((a[0] if a else "") + expr.name) if a and a[0] else expr
+
+    def map_common_subexpression_uncached(self, expr, *a):
+        return type(expr)(self.rec(expr.child, *a), expr.prefix, expr.scope)
+
+
 def _hooked_deps(base):
     class Hooked(base):
         """overrides the documented per-wrapper hook: wrappers also report a marker"""
@@ -188,7 +199,8 @@ def subobjects(pool):
 
 def teq(a, b):
     if isinstance(a, (set, frozenset)) and isinstance(b, (set, frozenset)):
-        return a == b
+        # "exactly what its counterpart returns": a set stays a set (callers update it in place)
+        return type(a) is type(b) and a == b
     if isinstance(a, Counter) or isinstance(b, Counter):
         return a == b
     return normal.typed_eq(a, b)
@@ -239,6 +251,8 @@ def c_history(ctx, case):
          lambda w: w(DependencyMapper)(**flags), False, False),
         ("cse-mixin:differentiator", lambda w: w(DifferentiationMapper)(V["x"]),
          lambda w: w(DifferentiationMapper)(V["x"]), False, False),
+        ("cse-mixin:renamer+args", lambda w: w(CSEArgRenamer)(), lambda w: w(CSEArgRenamer)(),
+         True, False),
         ("cse-mixin:fold", lambda w: w(ConstantFoldingMapper)(), lambda w: w(ConstantFoldingMapper)(),
          False, False),
         ("cse-mixin:commfold", lambda w: w(CommutativeConstantFoldingMapper)(),
@@ -269,7 +283,7 @@ def c_history(ctx, case):
                 continue
             if not takes_args:
                 a, kw = (), {}
-            if name in ("combine+args", "collector+args"):
+            if name in ("combine+args", "collector+args", "cse-mixin:renamer+args"):
                 kw = {}
             got = outcome(lambda: memo(e, *a, **kw))
             # (the counterpart keeps a per-call table of wrappers too: in the explanation runs
